@@ -277,7 +277,7 @@ class Ctm(Pipeline):
     def gen(rng, sc):
         n = rng.choice([0, 1, 2, 3, 4, 6])
         mapping = rng.choice(["none", "wc2utt", "utt2wc"])
-        fs = rng.choice([10.0, 10.0, 20.0, 12.5, 25.0])
+        fs = rng.choice([10.0, 10.0, 20.0, 12.5, 25.0, 16.0, 15.0, 30.0])
         utts = []
         ids = gen_ids(rng, n)
         for k, uid in enumerate(ids):
@@ -453,7 +453,7 @@ class Tg(Pipeline):
             other = {"point": False, "name": "other", "xmin": 0, "xmax": xmax, "items": [["b", 0, max(xmax, unit)]]}
             utts.append({"id": uid, "tier": {"point": point, "name": "transcript", "xmin": xmin, "xmax": xmax, "items": items}, "other": other, "first": rng.random() < 0.5})
         fmt = rng.choice(["long", "long", "short"])
-        return {"utts": utts, "prec": prec, "fs": rng.choice([10.0, 20.0, 25.0]), "fill": fill, "tier_by": rng.choice(["default", "name", "idx"] if fmt == "long" else ["default", "name"]),
+        return {"utts": utts, "prec": prec, "fs": rng.choice([10.0, 20.0, 25.0, 16.0, 15.0]), "fill": fill, "tier_by": rng.choice(["default", "name", "idx"] if fmt == "long" else ["default", "name"]),
                 "tg_format": fmt,
                 "tg_suffix": rng.choice([".TextGrid", ".tg"]), "out_prec": rng.choice([None, 2, 4]), "len_from": rng.choice(["infer", "feat"]), "out_tier": rng.choice([None, "words"])}
 
